@@ -239,3 +239,37 @@ func c18RelativePath(c *Ctx) {
 		c.Count(id, true, "stream:relative-path")
 	}
 }
+
+// c18DirectoryKeys: keys whose file would be the storage directory itself or its parent. They were never set, so Get
+// must not find them; Set and Delete refuse them; and the store works afterwards (its directory is still there).
+func c18DirectoryKeys(c *Ctx) {
+	for i, k := range []string{"", ".", ":", ".:", "..", ":.:.", "a/.."} {
+		id := fmt.Sprintf("directory-key#%d", i)
+		if c.Skip(id) {
+			continue
+		}
+		dir := filepath.Join(c.ScratchDir(), "dk", "store")
+		st, _ := util.NewFileStorage(dir)
+		in := map[string]interface{}{"key": k, "store": "empty, just created"}
+		for _, order := range []string{"get", "delete", "get"} {
+			switch order {
+			case "get":
+				if v, err := st.Get(k); err == nil {
+					c.Violate("storage Get finds a key that was never set (the key names the storage directory)", id, in, "not found", fmt.Sprintf("found, %d bytes", len(v)))
+				}
+			case "delete":
+				st.Delete(k)
+			}
+		}
+		if err := st.Set("x", []byte("1")); err != nil {
+			c.Violate("the store no longer works after Delete of a key that names its directory", id, in, "Set(\"x\") succeeds", err.Error())
+		}
+		if err := st.Set(k, []byte("v")); err == nil {
+			if v, gerr := st.Get(k); gerr != nil || string(v) != "v" {
+				c.Violate("storage Set accepts a key that names the storage directory and Get does not return the value", id, in, "refused, or read back", fmt.Sprintf("%q %v", v, gerr))
+			}
+		}
+		c.Count(id, true, "stream:directory-keys")
+		os.RemoveAll(filepath.Join(c.ScratchDir(), "dk"))
+	}
+}
